@@ -179,3 +179,15 @@ CHECKS["C06"] = _e1_entry("Crashes and API errors never corrupt a rollout.", "c0
     "the fault actually fired (index within the faulty run's own call sequence).")
 CHECKS["C06"]["level"] = "fault_enumeration"
 CHECKS["C06"]["subchecks"] = [{"name": "c06-fault-enumeration", "pkg": "p06", "test": "TestC06FaultEnumeration", "quick": rp(16, 16, timeout=1200, shrinktime="120s"), "thorough": rp(160, 16, timeout=6000, shrinktime="600s")}]
+
+
+_p11 = _load_snippet("p11")
+_p16 = _load_snippet("p16")
+
+CHECKS["C11"] = _p11["MAIN"]["C11"]
+CHECKS["C16"] = _p16["MAIN"]
+# C01(b): BatchRelease-level knob oracle from the p11 machine
+CHECKS["C01"]["subchecks"] = CHECKS["C01"]["subchecks"] + list(_p11["MAIN"]["C01B"]["subchecks"])
+CHECKS["C01"]["assumptions"] = CHECKS["C01"]["assumptions"] + list(_p11["MAIN"]["C01B"].get("assumptions", []))
+CHECKS["C01"]["rule"] += " BatchRelease level (c01-batchrelease-knob): " + _p11["MAIN"]["C01B"].get("rule", "")
+CHECKS["C01"]["engine"] = "E3+E2+E1"
